@@ -26,7 +26,7 @@ func init() {
 		if tier == "thorough" {
 			n = 4000
 		}
-		return Plan{Runs: n, Level: "exploration", Rule: "one run = (backend, trigger, encoding, size, 1-3 refresh rounds each with an outcome from the fault menu, 2-4 readers, preemption density) drawn from the tape; non-trivial = at least one reader verdict overlapped a refresh or one fault fired; distinct = distinct (scenario fingerprint, schedule fingerprint)"}
+		return Plan{Runs: n, RaceEvery: 3, Level: "exploration", Rule: "every third run is executed under the race detector (a lookup that touches a store while it is being switched is a data race before it is a wrong answer); one run = (backend, trigger, encoding, size, 1-3 refresh rounds each with an outcome from the fault menu, 2-4 readers, preemption density) drawn from the tape; non-trivial = at least one reader verdict overlapped a refresh or one fault fired; distinct = distinct (scenario fingerprint, schedule fingerprint)"}
 	}, Run: runC08})
 }
 
@@ -59,6 +59,7 @@ func runC08(h *Harness) {
 	// in half of the runs, tasks that have just given up a lock are held back at a seeded subset of such sites
 	h.S.pDelayDen, h.S.delayFor = Pick(tp, 0, 0, 5, 10), Pick(tp, 2*time.Second, 20*time.Second)
 	h.S.pHoldDen, h.S.holdFor = Pick(tp, 0, 0, 0, 6), Pick(tp, 2*time.Second, 10*time.Second) // tasks held back while they hold a lock
+	h.S.stallSteps = Pick(tp, 0, 30, 300) // half of the window delays counted in other tasks' steps
 	sc["backend"], sc["trigger"], sc["pem"], sc["extra"], sc["width"], sc["rounds"], sc["readers"], sc["pre"], sc["smallwb"] = backend, trigger, pem, extra, width, rounds, readers, pre, smallWB
 	if faulty {
 		h.R.Config = "faulty"
@@ -319,6 +320,11 @@ func runC08(h *Harness) {
 				out := errStr(x.Err)
 				if strings.HasPrefix(out, "error(") {
 					h.Probe("lookup-error-during-refresh")
+					if outcome == "success" {
+						// nothing failed in this round: a lookup that is not answered from the old or the new list met
+						// the store in a state between the two
+						h.Violation("C08.a-linearizable", "lookup-error-during-clean-refresh", "round %d: while a fault-free refresh v%d->v%d was running, the lookup of a %s serial returned %s instead of an answer from one of the two lists", r+1, inForce+1, next+1, r0.class[j], out)
+					}
 					continue // fail closed: no information about which list answered
 				}
 				if x.Call > startStep {
